@@ -514,7 +514,7 @@ func c07Chain(c c07Case, dir, srcPath, otherPath string) string {
 // Generators
 
 var c07Text = textOpts{
-	extra:   []string{"&", "<", ">", "a,b", "it's", "½", "café", "Zürich", "¿Qué?", "x²", "«q»", "100%", "A-B", "(ok)", "[x]", "@home", "#1", "1/2", "no;yes", "a:b", "=", "+", "*", "!", "?"},
+	extra:   []string{"&", "<", ">", "a,b", "it's", "½", "café", "Zürich", "¿Qué?", "x²", "«q»", "100%", "A-B", "(ok)", "[x]", "@home", "#1", "1/2", "no;yes", "a:b", "=", "+", "*", "!", "?", "&lt;", "&amp;", "&nbsp;", "&gt;b", "&#65;"},
 	nbsp:    false,
 	noPunct: []string{"{", "}", "\\", "$", "`", "~", "^", "_", "|"},
 }
